@@ -88,9 +88,9 @@ ALL_RUNS = [
 
 class P(Prop):
     id = "C08"
-    quick_cases = 4000
+    quick_cases = 12000
     thorough_cases = 200000
-    chunk = 500
+    chunk = 1000
     rule = (
         "one case = protein sequence (length 0-14 over a per-enzyme 5-letter alphabet: its pre/not_post/post residues, M, "
         "one neutral; 70% start with M when Met cleavage is on) x every enzyme of ENZYME_CLEAVAGE_RULES x 1-3 parameter runs "
@@ -211,7 +211,9 @@ class P(Prop):
                 return f"digestion of {seq!r} raised {o['err']}"
             mode = eff_mode(r["mode"])
             want = spec(seq, max(r["min"], 1), r["max"], pre, not_post, post, r["mc"], r["met"], mode)
-            got = set(o["peptides"]) - {""}
+            got = set(o["peptides"])
+            if r["min"] == 0:
+                got -= {""}  # the statement is about min_len >= 1; with 0 the code may also yield the empty string
             if got != want:
                 extra, missing = sorted(got - want), sorted(want - got)
                 return (
